@@ -44,6 +44,27 @@ def element_of(md, n):
     return {"C": E.carbon, "N": E.nitrogen, "O": E.oxygen, "H": E.hydrogen, "S": E.sulfur}[n[0]]
 
 
+def cluster(md, rng):
+    """a compact cluster of peptide units (N-H, CA, C=O with realistic bond lengths, random orientations, all CA within about 0.8 nm):
+    several carbonyl groups lie close to the same N-H, so that donors have three and more acceptors below -0.5 kcal/mol, met in any order"""
+    top = md.Topology()
+    ch = top.add_chain()
+    pos = []
+    nres = rng.randrange(5, 10)
+    unit = lambda: (lambda v: v / np.linalg.norm(v))(np.array([rng.gauss(0, 1) for _ in range(3)]))
+    for ri in range(nres):
+        r = top.add_residue(rng.choice(["ALA", "GLY", "SER", "ALA", "PRO"]), ch, ri + 1)
+        c0 = unit() * rng.uniform(0.0, 0.42)
+        n_ = c0 + unit() * 0.12
+        atoms = {}
+        for an, xyz in (("N", n_), ("H", n_ + unit() * 0.1), ("CA", c0), ("C", c0 + unit() * 0.152)):
+            atoms[an] = top.add_atom(an, element_of(md, an), r); pos.append(xyz)
+        atoms["O"] = top.add_atom("O", element_of(md, "O"), r); pos.append(pos[-1] + unit() * 0.123)
+        for a, b in (("N", "H"), ("N", "CA"), ("CA", "C"), ("C", "O")):
+            top.add_bond(atoms[a], atoms[b])
+    return top, np.array(pos)
+
+
 def synth(md, rng):
     """topology with bonds + coordinates with planted donor-H...acceptor geometries around the thresholds"""
     top = md.Topology()
@@ -215,6 +236,11 @@ def run(ctx):
             top = t0.topology
             X = t0.xyz.astype(np.float64) + np.array([[[rng.gauss(0, 1) for _ in range(3)] for _ in range(t0.n_atoms)] for _ in fr]) * rng.choice([0, 0.005, 0.02])
             protein_names = {r.name for r in top.residues if r.is_protein}
+        elif k % 4 == 1:
+            top, p0 = cluster(md, rng)
+            nfr = rng.choice([1, 2, 3])
+            X = np.array([p0 + np.array([[rng.gauss(0, 1) for _ in range(3)] for _ in range(len(p0))]) * (0.0 if f == 0 else 0.01) for f in range(nfr)])
+            protein_names = PROTEIN
         else:
             top, p0 = synth(md, rng)
             nfr = rng.choice([1, 2, 4, 6])
@@ -238,7 +264,7 @@ def run(ctx):
             t.unitcell_vectors = np.tile(b[None], (nfr, 1, 1))
             box = t.unitcell_vectors[0].astype(np.float64)
         X64 = X.astype(np.float64)
-        desc = dict(source="real" if use_real else "synthetic", n_atoms=n, n_residues=top.n_residues, frames=nfr, periodic=periodic)
+        desc = dict(source="real" if use_real else ("cluster" if k % 4 == 1 else "synthetic"), n_atoms=n, n_residues=top.n_residues, frames=nfr, periodic=periodic)
         rp0 = dict(desc, seed=ctx.seed, case=k, residues=[(r.name, [a.name for a in r.atoms]) for r in top.residues][:40],
                    bonds=[[b0.index, b1.index] for b0, b1 in top.bonds][:400], xyz=X.tolist() if n <= 80 else None, box=None if box is None else box.tolist())
         if top.n_bonds == 0:
